@@ -24,12 +24,16 @@ def main(argv):
     tier = C.tier()
     rep = C.Report(PID)
     rep.functions |= {"pysnark/runtime.py: the top-level backend-selection statements (extracted by ast on every run)",
+                      "process rows: name, module, field, fieldinverse*x=1 mod the reported modulus, interface completeness; for "
+                      "libsnark/libsnarkgg also the proof-system family prove() calls and that the selected module received the trace",
                       "import closures and set_modulus calls of backendbellman/backendbulletproofs/backendgg (read from source)"}
     rep.bounds = dict(configuration="PYSNARK_BACKEND unset | each known name | an unknown name; every subset of pre-imported "
                                     "backend modules closed under their imports; every subset of loadable modules")
     rep.assumptions = ["importlib/sys.modules/os.environ are answered from the symbolic configuration; module import side effects are "
                        "the import closure and the set_modulus call read from the sources",
-                       "get_ipython is undefined (not an IPython session)", "libsnark modules cannot be imported here (process rows skip them)"]
+                       "get_ipython is undefined (not an IPython session)", "the libsnark extension is absent: the rows for the names libsnark/libsnarkgg run with a recording stand-in "
+                       "(stubs_libsnark: real linear combinations and constraints over BN254, the zk_*/zkgg_* families only record "
+                       "their calls); all other rows keep seeing libsnark as not installed"]
     for r in C.run_jobs("c19", jobs(tier)):
         rep.absorb(r)
     part_b(rep, tier, C.load_known(PID))
